@@ -216,18 +216,18 @@ func (r *Report) Finish(outDir string, findings []Finding) int {
 		r.Notes = []string{}
 	}
 	cov := map[string]interface{}{
-		"explanation":   r.Explain,
-		"obligations":   len(r.Obs),
-		"discharged":    nDis,
-		"known":         nKnown,
-		"violated":      nViol,
-		"analysed":      r.Analysed,
-		"rules":         ruleTable,
-		"samples":       samples,
-		"observations":  r.Notes,
-		"trusted_base":  r.Trusted,
-		"checker_cmd":   strings.Join(os.Args, " "),
-		"exhaustive":    false,
+		"explanation":     r.Explain,
+		"obligations":     len(r.Obs),
+		"discharged":      nDis,
+		"known":           nKnown,
+		"violated":        nViol,
+		"analysed":        r.Analysed,
+		"rules":           ruleTable,
+		"samples":         samples,
+		"observations":    r.Notes,
+		"trusted_base":    r.Trusted,
+		"checker_cmd":     strings.Join(os.Args, " "),
+		"exhaustive":      false,
 		"all_obligations": keys(r.Obs),
 	}
 	for k, v := range r.Extra {
